@@ -219,7 +219,7 @@ def _all_none(data):
     if isinstance(data, SSeq):
         if data.none is None:
             return compare("==", data.length, 0)
-        return ForAll(0, data.length, lambda t: wrap(_sel(data.none, tz(t))))
+        return ForAll(0, data.length, lambda t: wrap(z3.Select(data.none, tz(t))))
     return all(x is None for x in data)
 
 
